@@ -164,8 +164,9 @@ def ssp(check, proj):
         stepf = proj.resolve(c, "step")
         ai, outs = run_step(proj, c)
         T = rk.extract(outs[0], name)
-        if T.problems:
-            check.violation("RK-SSP", c.qualname, "%s" % T.problems[0][1], stepf.loc(), key="tableau")
+        probs = [t for r, t in T.problems if rk.problem_kind(r, t) == "update"]     # the statement uses one global step of an autonomous system
+        if probs:
+            check.violation("RK-SSP", c.qualname, "%s" % probs[0], stepf.loc(), key="tableau")
             continue
         bad = rk.ssp_r1(T.A, T.b)
         if bad:
